@@ -12,6 +12,7 @@ RULE = ("online-generated small sequences (1-4 atoms, 2D/3D registers with shuff
         "for long sequences) with a dense numpy.kron reference built from the recorded timeline, the register "
         "coordinates and a frozen copy of the C6 table; hermiticity and state ordering are checked. non-trivial = "
         "distinct case with >= 2 atoms and >= 2 of {local addressing, two bases, DMM, SLM, XY field not along z}")
+RULE += " Later additions: directed: one DetuningMap object configured in two sequences whose registers carry the same ids at other traps, both emulated."
 ASSUMPTIONS = ["when two channels of one basis drive the same atom the statement defines no combined phase: off-diagonal "
                "entries are gray there (diagonal still compared)",
                "after the end of a channel that is still in EOM mode the per-atom off-detuning is gray",
